@@ -170,6 +170,72 @@ Qed.
 Lemma realpath_good f p q : realpath f p = Some q -> all_good q.
 Proof. unfold realpath. intros H. eapply (walk_good false f FUEL); [exact H|reflexivity|apply path_comps_nosep]. Qed.
 
+(* ------------------------------------------------------------------ on a resolved path os.stat is os.lstat *)
+
+Definition plainb (c : str) : bool := negb (is_empty c) && negb (str_eqb c dot) && negb (str_eqb c dotdot).
+Definition all_plain (p : comps) : Prop := forallb plainb p = true.
+
+Lemma all_plain_snoc p c : all_plain p -> plainb c = true -> all_plain (p ++ [c]).
+Proof. unfold all_plain. intros G C. rewrite forallb_app, G. cbn [forallb]. rewrite C. reflexivity. Qed.
+
+Lemma all_plain_removelast p : all_plain p -> all_plain (removelast p).
+Proof.
+  unfold all_plain. induction p as [|x p IH]; intros G; [reflexivity|]. cbn [forallb] in G. apply andb_true_iff in G as [Gx Gp].
+  destruct p as [|y p']; [reflexivity|]. change (removelast (x :: y :: p')) with (x :: removelast (y :: p')).
+  cbn [forallb]. rewrite Gx. apply IH. exact Gp.
+Qed.
+
+Lemma walk_plain strict f : forall fuel pre rest q,
+  walk strict fuel f pre rest = Some q -> all_plain pre -> all_plain q.
+Proof.
+  induction fuel as [|fuel IH]; intros pre rest q H G.
+  - destruct rest; cbn [walk] in H; [|discriminate].
+    destruct strict; [destruct (lstat f pre); [|discriminate]|]; injection H as <-; exact G.
+  - destruct rest as [|c rest']; cbn [walk] in H.
+    + destruct strict; [destruct (lstat f pre); [|discriminate]|]; injection H as <-; exact G.
+    + destruct (strict && negb (is_dir_node (lstat f pre))); [discriminate|].
+      destruct (is_empty c || str_eqb c dot) eqn:ED; [eapply IH; eassumption|].
+      destruct (str_eqb c dotdot) eqn:EDD; [eapply IH; [eassumption|apply all_plain_removelast; exact G]|].
+      assert (Pc : plainb c = true).
+      { unfold plainb. apply orb_false_iff in ED as [E1 E2]. rewrite E1, E2, EDD. reflexivity. }
+      destruct (lstat f (pre ++ [c])) as [[sz a| |t|]|] eqn:EL.
+      * eapply IH; [eassumption|apply all_plain_snoc; assumption].
+      * eapply IH; [eassumption|apply all_plain_snoc; assumption].
+      * eapply IH; [eassumption|]. destruct (is_abs t); [reflexivity|exact G].
+      * eapply IH; [eassumption|apply all_plain_snoc; assumption].
+      * destruct strict; [discriminate|]. eapply IH; [eassumption|apply all_plain_snoc; assumption].
+Qed.
+
+Lemma realpath_plain f p q : realpath f p = Some q -> all_plain q.
+Proof. unfold realpath. intros H. eapply (walk_plain false f FUEL); [exact H|reflexivity]. Qed.
+
+(* the kernel's walk over a symlink-free path without `.`/`..` goes nowhere else *)
+Lemma walk_strict_id f : forall fuel pre rest q,
+  walk true fuel f pre rest = Some q -> link_free f (pre ++ rest) -> all_plain rest -> q = pre ++ rest.
+Proof.
+  induction fuel as [|fuel IH]; intros pre rest q H LF P.
+  - destruct rest; cbn [walk] in H; [|discriminate]. destruct (lstat f pre); [|discriminate]. injection H as <-. rewrite app_nil_r. reflexivity.
+  - destruct rest as [|c rest']; cbn [walk] in H.
+    + destruct (lstat f pre); [|discriminate]. injection H as <-. rewrite app_nil_r. reflexivity.
+    + unfold all_plain in P. cbn [forallb] in P. apply andb_true_iff in P as [Pc P']. unfold plainb in Pc.
+      apply andb_true_iff in Pc as [Pc Pdd]. apply andb_true_iff in Pc as [Pe Pd]. apply negb_true_iff in Pe, Pd, Pdd.
+      destruct (true && negb (is_dir_node (lstat f pre))); [discriminate|]. rewrite Pe, Pd, Pdd in H. cbn [orb] in H.
+      assert (NL : is_link_node (lstat f (pre ++ [c])) = false).
+      { specialize (LF (length pre + 1)%nat). rewrite firstn_app in LF. rewrite firstn_all2 in LF by lia.
+        replace (length pre + 1 - length pre)%nat with 1%nat in LF by lia. cbn [firstn] in LF. exact LF. }
+      replace (pre ++ c :: rest') with ((pre ++ [c]) ++ rest') in * by (rewrite <- app_assoc; reflexivity).
+      destruct (lstat f (pre ++ [c])) as [[sz a| |t|]|] eqn:EL; try discriminate.
+      * eapply IH; eassumption.
+      * eapply IH; eassumption.
+      * eapply IH; eassumption.
+Qed.
+
+Lemma stat_resolved f q n : link_free f q -> all_plain q -> stat f q = Some n -> lstat f q = Some n.
+Proof.
+  unfold stat. intros LF P. destruct (walk true FUEL f [] q) as [q'|] eqn:W; [|discriminate].
+  apply (walk_strict_id f FUEL [] q q') in W; [|exact LF|exact P]. cbn [app] in W. subst q'. intros H. exact H.
+Qed.
+
 (* ------------------------------------------------------------------ approval, unfolded *)
 
 Lemma analyze_path_inv f p : analyze_path f p = true ->
@@ -194,7 +260,7 @@ Lemma env_sound_file f cc pc tokens i fl :
   fl_inspect fl = false /\ fl_skip1 fl = false /\
   exists tok q sz t,
     nth_error tokens i = Some tok /\ realpath f (pjoin (cwd_of cc pc) tok) = Some q /\ link_free f q /\ all_good q /\
-    stat f q = Some (NFile sz (Some t)) /\ suffix_ok (last q []) = true /\ (sz <= 100000)%N /\ visit true false t = [] /\
+    lstat f q = Some (NFile sz (Some t)) /\ suffix_ok (last q []) = true /\ (sz <= 100000)%N /\ visit true false t = [] /\
     py_syspath0 f (cwd_of cc pc) tokens = SP_dir (removelast q) /\
     forall r, In r (roots t) -> shadowed f (removelast q) r = false.
 Proof.
@@ -203,8 +269,9 @@ Proof.
   apply fs_resolve_inv in HR as [q [HQ ->]]. pose proof (realpath_good _ _ _ HQ) as G.
   unfold fs_analyze in HAn. rewrite path_comps_render in HAn by exact G.
   apply analyze_path_inv in HAn as [sz [t [S [Sx [Le [V R]]]]]].
+  pose proof (realpath_link_free _ _ _ HQ) as LF.
   exists tok, q, sz, t. repeat split; try assumption.
-  - eapply realpath_link_free. exact HQ.
+  - apply stat_resolved; [exact LF|eapply realpath_plain; exact HQ|exact S].
   - unfold py_syspath0. rewrite HC, HN, HQ. unfold p_is_dir. rewrite S. reflexivity.
 Qed.
 
